@@ -494,8 +494,8 @@ def run(chk: Check):
     for c in corpus:   # minimised past findings of the other kernels run first
         if c.get("kind") in ("tor", "ltor", "pf"):
             real_cases.insert(0, {k: c[k] for k in ("kind", "M", "y") if k in c} | {"prec": "d", "strided": False})
-        elif c.get("kind") in ("haf", "lhaf"):
-            haf_cases.insert(0, {k: c[k] for k in ("kind", "M", "occ", "diag") if k in c} | {"prec": "d", "strided": False})
+        elif c.get("kind") in ("haf", "lhaf", "haf_batch", "lhaf_batch"):
+            haf_cases.insert(0, {k: c[k] for k in ("kind", "M", "occ", "diag", "m", "cutoff") if k in c} | {"prec": "d", "strided": False})
     impl = run_impl("c04_impl.py", {"perm": py_cases, "haf": [R.haf_payload(c) for c in haf_cases],
                                      "real": [R.real_payload(c) for c in real_cases]}, timeout=3000)
     py_res = {i: r for i, r in zip(py_idx, impl["perm"])}
